@@ -72,6 +72,8 @@ def rand_doc(rng, T, i):
     if rng.chance(0.15): cfg['add_metadata'] = True
     if rng.chance(0.1): cfg['debug'] = True
     if rng.chance(0.1): cfg['background'] = rng.choice(['white', '#eee'])
+    if rng.chance(0.25): cfg['font_size'] = rng.choice([2.0, 3.0, 4.5, 7.0])
+    if rng.chance(0.25): cfg['font_family'] = rng.choice(['serif', 'monospace', 'Arial', 'sans-serif'])
     n = rng.range(2, 7)
     ids = []
     for j in range(n):
@@ -89,6 +91,12 @@ def rand_doc(rng, T, i):
             parts.append('<rect id="q%d" xy="{{random()*50}} {{randint(0,40)}}" wh="{{randint(1,9)}} {{1 + random()}}" text="{{randint(%d,%d)}}"/>'
                          % (j, rng.range(-50, 0), rng.range(1, 99)))
             ids.append('q%d' % j); feats.add('random')
+        elif k < 55:    # one <var> drawing several random values (evaluated in attribute order)
+            parts.append('<var a%d="{{random()}}" b%d="{{randint(1, 99)}}" c%d="{{random() * 7}}" d%d="{{randint(5, 6)}}"/><text xy="1 %d" text="$a%d $b%d $c%d $d%d"/>'
+                         % (j, j, j, j, j, j, j, j, j))
+            if rng.chance(0.3):  # several failing attributes in one <var>: the error reported is the first one in attribute order
+                parts.append('<var p%d="{{nofn(1)}}" q%d="{{randint(3, 1)}}" r%d="{{1 +}}"/>' % (j, j, j)); feats.add('errors')
+            feats.add('random-var')
         elif k < 60:
             parts.append('<loop count="%d"><circle cxy="{{randint(0,50)}} {{randint(0,50)}}" r="{{random()+0.5}}" class="d-fill-%s"/></loop>'
                          % (rng.range(2, 6), rng.choice(T['colour_list'])))
@@ -237,6 +245,38 @@ def run(ctx):
         if len(st['samples']) < 4 and 'patterns' in feats and obs[0]:
             st['samples'].append({'doc': xml[:300], 'cfg': cfg, 'result': obs[0][0]})
     dist['docs_failing'] = nerr
+    # ---- (3b) history independence on ONE thread: the same requests in two different orders (caches and statics keyed on too
+    #      little show up as results that depend on what the thread transformed before)
+    hdocs = [d for d in docs if 'errors' not in d[3]][:(120 if quick else 2000)]
+    if hdocs:
+        reqs = []
+        for i, xml, cfg, feats in hdocs:
+            reqs.append((i, xml, cfg))
+            c2 = dict(cfg); c2['font_size'] = rng.choice([2.5, 6.0]); c2['font_family'] = rng.choice(['cursive', 'fantasy'])
+            reqs.append((i, xml, c2))
+            if rng.chance(0.5):
+                c3 = dict(cfg); c3['theme'] = rng.choice(T['theme_names']); reqs.append((i, xml, c3))
+        def one_thread(order):
+            line = 'h\tfe_conc\t1\t' + ','.join('s:%s:%s' % (enc_cfg(reqs[k][2]), reqs[k][1].encode('utf-8').hex()) for k in order)
+            out, _ = lib.run_lines(lib.HARNESS_BIN, ['600000'], [line], timeout=900)
+            r = out.get('h') or []
+            parts = r[1].split(';') if len(r) > 1 and r[0] == 'OK' else []
+            return {k: p for k, p in zip(order, parts)} if len(parts) == len(order) else None
+        fwd = list(range(len(reqs))); rev = list(reversed(fwd)); shuf = list(fwd); rng.shuffle(shuf)
+        runs = [one_thread(o) for o in (fwd, rev, shuf)]
+        if any(r is None for r in runs):
+            yield {'kind': 'oracle', 'what': 'transforms run one after another on one thread did not all return', 'case': {'n': len(reqs)}, 'observed': [r is None for r in runs], 'expected': 'results', 'tag': 'history'}
+        else:
+            for k in fwd:
+                st['evaluations'] += 3
+                vals = [r[k] for r in runs]
+                if vals[1] != vals[0] or vals[2] != vals[0]:
+                    i, xml, cfg = reqs[k]
+                    yield {'kind': 'oracle', 'what': 'the result of a transform depends on what the same thread transformed before it (config %s):\n%s' % (cfg, xml[:600]),
+                           'case': {'xml': xml, 'cfg': cfg, 'position_in_orders': [fwd.index(k), rev.index(k), shuf.index(k)]},
+                           'observed': [v[:400] for v in vals], 'expected': 'identical results', 'tag': 'history'}
+                    break
+        dist['same_thread_requests'] = len(reqs)
     # ---- CLI: exit code, stdout and stderr of 3 fresh processes
     ncli = 120 if quick else 3000
     cli_docs = [d for d in docs if 'errors' in d[3]][:ncli // 2] + [d for d in docs if 'errors' not in d[3]][:ncli // 2]
